@@ -48,15 +48,18 @@ Fixpoint set_nth (n : nat) (x : N) (l : list N) : list N :=
 
 Definition slot (r : ring) (i : N) : nat := N.to_nat (N.modulo i (r_cap r)).
 
-(* acq_tail: the producer's load of _tail is an acquire load (it is relaxed in the code as found) *)
-Definition ring_step (acq_tail : bool) (r : ring) (s : rstep) : ring * rout :=
+(* psync: the producer's load of _tail synchronises with the consumer's store of _tail (acquire load of a release
+          store; the load was relaxed in the code as found);
+   csync: the consumer's load of _head synchronises with the producer's store of _head.
+   Which memory orders the code uses NOW is read off the source on every run (coq/Gen/RingProto.v, C10/GenTie.v). *)
+Definition ring_step (psync csync : bool) (r : ring) (s : rstep) : ring * rout :=
   match s, r_p r, r_c r with
   | SPushBegin items, PIdle, _ =>
     let h := r_head r in
     let t := r_tail r in
     let avail := r_cap r - (h - t) in
     let n := N.min (lenN items) avail in
-    let knows := if acq_tail then N.max (r_pknows r) t else r_pknows r in    (* the tail value t was released with t reads *)
+    let knows := if psync then N.max (r_pknows r) t else r_pknows r in    (* the tail value t was released with t reads *)
     (mkRing (r_cap r) h t (r_buf r) (PWriting h (firstn (N.to_nat n) items) []) (r_c r) knows (r_cknows r) (r_raced r)
             (r_pushed r) (r_popped r), ONone)
   | SPushWrite, PWriting h0 (x :: todo) done, _ =>
@@ -72,7 +75,7 @@ Definition ring_step (acq_tail : bool) (r : ring) (s : rstep) : ring * rout :=
     let t := r_tail r in
     let h := r_head r in
     let n := N.min maxn (h - t) in
-    (mkRing (r_cap r) h t (r_buf r) (r_p r) (CReading t (N.to_nat n) []) (r_pknows r) (N.max (r_cknows r) h) (r_raced r)
+    (mkRing (r_cap r) h t (r_buf r) (r_p r) (CReading t (N.to_nat n) []) (r_pknows r) (if csync then N.max (r_cknows r) h else r_cknows r) (r_raced r)
             (r_pushed r) (r_popped r), ONone)
   | SPopRead, _, CReading t0 (S n) got =>
     let i := t0 + lenN got in
@@ -88,8 +91,8 @@ Definition ring_step (acq_tail : bool) (r : ring) (s : rstep) : ring * rout :=
 Definition ring_init (cap : N) : ring :=
   mkRing cap 0 0 (repeat 0 (N.to_nat cap)) PIdle CIdle 0 0 false [] [].
 
-Fixpoint ring_run (acq_tail : bool) (r : ring) (l : list rstep) : ring * list rout :=
+Fixpoint ring_run (psync csync : bool) (r : ring) (l : list rstep) : ring * list rout :=
   match l with
   | [] => (r, [])
-  | s :: l' => let x := ring_step acq_tail r s in let y := ring_run acq_tail (fst x) l' in (fst y, snd x :: snd y)
+  | s :: l' => let x := ring_step psync csync r s in let y := ring_run psync csync (fst x) l' in (fst y, snd x :: snd y)
   end.
